@@ -193,7 +193,7 @@ func H_C16(v *zzverif.T) {
 	single := make([][][]float32, len(outputs)) // [output][sample]
 	singleB := make([][][]bool, len(outputs))   // bool outputs
 	singleShape := make([][]int, len(outputs))
-	asView := false
+	asView, asLazy := false, false
 	mkIn := func(i int, rows []int) tensor.Tensor {
 		if dataI[i] != nil {
 			ordered := make([][]int32, len(rows))
@@ -224,6 +224,28 @@ func H_C16(v *zzverif.T) {
 			return w
 		}
 		d, full := zzStackG(ordered, shapes[i], axes[i])
+		if asLazy && len(full) >= 2 {
+			// the batch handed over lazily transposed: stored with its first two axes exchanged, x.T(1,0,...) applied,
+			// no Transpose() - the strides say "transposed", the elements have not moved
+			st := append([]int{}, full...)
+			st[0], st[1] = full[1], full[0]
+			sd := make([]float32, len(d))
+			for f := range d {
+				idx := zzverif.Unravel(f, full)
+				idx[0], idx[1] = idx[1], idx[0]
+				sd[zzverif.Ravel(idx, st)] = d[f]
+			}
+			perm := make([]int, len(full))
+			for k := range perm {
+				perm[k] = k
+			}
+			perm[0], perm[1] = 1, 0
+			t := zzverif.NewTensor(sd, st)
+			if err := t.(*tensor.Dense).T(perm...); err != nil {
+				panic(err)
+			}
+			return t
+		}
 		return zzverif.NewTensor(d, full)
 	}
 	anyRefused := false
@@ -250,12 +272,12 @@ func H_C16(v *zzverif.T) {
 		}
 	}
 	// the batch, in the given order and reversed
-	for _, order := range []string{"forward", "reversed", "as-a-view"} {
+	for _, order := range []string{"forward", "reversed", "as-a-view", "lazily-transposed"} {
 		if order == "reversed" && n == 1 {
 			continue
 		}
-		asView = order == "as-a-view"
-		if asView && !(v.Has("views") && v.CBool("views")) {
+		asView, asLazy = order == "as-a-view", order == "lazily-transposed"
+		if asView && !(v.Has("views") && v.CBool("views")) || asLazy && !(v.Has("lazy") && v.CBool("lazy")) {
 			continue
 		}
 		perm := make([]int, n)
